@@ -9,3 +9,5 @@ import Rpki.Props.C10
 #print axioms Rpki.Props.C10.created_validates_iff
 #print axioms Rpki.Props.C10.accepted_message_octets
 #print axioms Rpki.Props.C10.accepted_message_octets_either_mode
+#print axioms Rpki.Props.C10.created_message_octets
+#print axioms Rpki.Props.C10.message_octets_accepted_iff
